@@ -255,8 +255,11 @@ class Ctx:
     def run_impl(self, ops: list[str], fresh_recheck=None) -> tuple[list[str], list[dict]]:
         """Run a history on ONE real objective; tokens in the driver's format + per-op details."""
         obj = self.cls(self.inst, self.sup)
+        import numpy as np
         toks, info = [], []
         mode = 0
+        prev = None          # arrays returned by the last successful get_differentials since the last initialize()
+        raw_evals = 0        # evaluate calls in real-system mode since that call
         for op in ops:
             d: dict = {"mode": mode}
             try:
@@ -270,9 +273,11 @@ class Ctx:
                     if fresh_recheck is not None and fresh_recheck():
                         d["fresh2"] = self.fresh_value(mode, x, recompute=True)
                     toks.append(f"v{code(v)}{'F' if code(v) == fv else 'D'}")
+                    raw_evals += 1 if mode == 0 else 0
                 elif op == "I":
                     obj.initialize()
                     mode = 0
+                    prev, raw_evals = None, 0
                     toks.append("ok")
                 elif op == "R":
                     obj.set_raw()
@@ -288,9 +293,18 @@ class Ctx:
                 elif op == "G":
                     try:
                         sc, df = obj.get_differentials()
-                        d.update(rows=len(sc), rows_df=len(df))
+                        d.update(rows=len(sc), rows_df=len(df), raw_evals=raw_evals, had_prev=prev is not None)
+                        if prev is not None:
+                            d["prev_rows"] = len(prev[0])
+                            d["prefix_ok"] = all(
+                                len(new) >= len(old) and new.shape[1:] == old.shape[1:]
+                                and np.ascontiguousarray(new[:len(old)]).tobytes() == old.tobytes()
+                                for new, old in zip((sc, df), prev))
+                        prev = (np.array(sc, dtype=float, copy=True), np.array(df, dtype=float, copy=True))
+                        raw_evals = 0
                         toks.append(f"d{len(sc)}:{arr_hash(sc, df)}")
                     except ValueError:
+                        d.update(raised=True, had_prev=prev is not None)
                         toks.append("ERR")
                 else:
                     raise AssertionError(op)
@@ -446,20 +460,27 @@ def gen_history(rng, usable: dict[int, list[int]], length: int, flavour: str, su
 
 # ------------------------------------------------------------------------------------------ oracle
 def judge(ck: Check | None, ctx: Ctx, ops, garbage, mtoks, itoks, info, stream: str, hid: str, report=True):
-    """B: model token vs implementation token;  C: documented-machine token vs implementation token.
-    Returns the list of (key, op index, what) spec violations found in this history."""
+    """B: model token vs implementation token (every op).
+    C: the property's clauses on what the implementation returned: evaluate = value of a fresh objective =
+    documented aggregate of the per-case figures of merit, in [0,1e100] u {1e200}; the recorded data is a
+    prefix-monotone log between initialize() calls that grows only across real-system evaluations.
+    Returns the list of (key, op index, what) violations found in this history."""
     bad = []
-    last_rows = None
     for k, (op, mt, it, d) in enumerate(zip(ops, mtoks, itoks, info)):
         m, _, s = mt.partition("/")
         s = m if s == "=" else s
         m, s = ctx.data_token(m), ctx.data_token(s)
         if ck is not None and report:
             ck.compare(stream, f"{hid}#{k}:{op}", m, it)
+            if s != m:   # the Lean theorem refines_documented_machine says this never happens
+                ck.compare("model-vs-documented-machine", f"{hid}#{k}:{op}", m, s)
         v = []
-        if it.startswith("EXC:"):
-            v.append(("exception", f"{op} raised {it[4:]}"))
-        elif op[0] == "E":
+        if op[0] == "E":
+            if it.startswith("EXC:"):
+                v.append(("exception", f"evaluate raised {it[4:]}"))
+                for key, what in v:
+                    bad.append((key, k, what))
+                continue
             val = d["v"]
             if not d["isfloat"]:
                 v.append(("not_float", f"evaluate returned {type(val).__name__}"))
@@ -471,36 +492,27 @@ def judge(ck: Check | None, ctx: Ctx, ops, garbage, mtoks, itoks, info, stream: 
                           f"returns {uncode(d['fresh'])!r} ({hexf(uncode(d['fresh']))}) in the same mode"))
             elif s != it:
                 v.append(("not_documented_value",
-                          f"evaluate(x{op[1:]}) returned {val!r}; documented value from the per-case figures of "
-                          f"merit (run_ode/j_from_ode called directly) is {s}"))
+                          f"evaluate(x{op[1:]}) returned {val!r} (code {code(val)}); the documented value computed from "
+                          f"the per-case figures of merit (run_ode/j_from_ode called directly) is {s}"))
             if d.get("x_changed"):
                 v.append(("x_mutated", "evaluate changed its argument"))
             if "fresh2" in d and d["fresh2"] != d["fresh"]:
                 v.append(("fresh_unstable", "two freshly constructed objectives disagree on the same x"))
         elif op == "G":
-            if s != it:
-                ir = d.get("rows")
-                sr = int(s[1:].split(":")[0]) if s.startswith("d") else None
-                if ir is None or sr is None:
-                    v.append(("getdiff_error", f"get_differentials: implementation {it}, documented {s}"))
-                elif ir > sr:
-                    v.append(("grew_outside_raw", f"get_differentials returned {ir} rows, but only {sr} were recorded "
-                                                  f"during real-system evaluations since the last initialize()"))
-                elif ir < sr:
-                    v.append(("rows_lost", f"get_differentials returned {ir} rows, {sr} were recorded"))
-                else:
-                    v.append(("data_differs", "get_differentials returned other rows than were recorded"))
+            if d.get("raised") and d.get("had_prev"):
+                v.append(("rows_lost", "get_differentials raised although it had returned data before and no "
+                                       "initialize() happened since"))
             if d.get("rows") is not None:
                 if d["rows"] != d["rows_df"]:
                     v.append(("sc_df_rows", "state+control and differential arrays have different row counts"))
-                if last_rows is not None and d["rows"] < last_rows:
-                    v.append(("rows_lost", f"collected rows shrank from {last_rows} to {d['rows']} without initialize()"))
-                last_rows = d["rows"]
-        else:
-            if op == "I":
-                last_rows = None
-            if s != it:
-                v.append(("mode_error", f"{op}: implementation {it}, documented {s}"))
+                if d.get("had_prev"):
+                    if not d["prefix_ok"]:
+                        v.append(("rows_lost", f"recorded data is no longer an extension of what get_differentials "
+                                               f"returned before ({d['prev_rows']} rows then, {d['rows']} now) although "
+                                               f"no initialize() happened"))
+                    elif d["rows"] > d["prev_rows"] and d["raw_evals"] == 0:
+                        v.append(("grew_outside_raw", f"recorded data grew from {d['prev_rows']} to {d['rows']} rows "
+                                                      f"without any real-system evaluation in between"))
         for key, what in v:
             bad.append((key, k, what))
     return bad
@@ -597,7 +609,8 @@ def instance_plan(ck: Check):
     plan = []
     for tup in itertools.zip_longest(*per_system):
         plan += [t for t in tup if t is not None]
-    return plan
+    # deterministic share of objects constructed without model support
+    return [(a, b, c, d, e and i % 5 != 2) for i, (a, b, c, d, e) in enumerate(plan)]
 
 
 def streams(ck: Check) -> None:
@@ -637,7 +650,7 @@ def streams(ck: Check) -> None:
 
     # (4)+(3) boundary families and structured random histories on every planned instance
     plan = instance_plan(ck)
-    per_inst = 6 if quick else 24
+    per_inst = 9 if quick else 24
     hid = 0
     for idx, (sysname, cname, fam, le, sup) in enumerate(plan):
         if time.time() - t_start > budget:
